@@ -1,25 +1,30 @@
 #!/usr/bin/env python3
 """C08 / package decl: tie of Model/Declarator.v (parse.c: pointers, declarator, abstract_declarator, type_suffix,
 array_dimensions, func_params, typename; type.c: pointer_to, array_of, func_type) and Spec/DeclSpec6_7_6.v
-(C11 6.7.6 declarators, 6.7.6.3p7-8 adjustment, psABI sizeof/_Alignof) to the real chibicc.
+(C11 6.7.6 declarators, 6.7.6.3p7-8 adjustment, psABI sizeof/_Alignof, the implementation limit `oversize`) to the real
+chibicc.  (Update 2: follows /repo after the fixes fbdf355, 8507b9f, 053b61b, 02474a3.)
 
 run(src_dir, seed, n, verif_dir) generates n cases (ctx, base, declarator) in the abstract syntax of the spec:
 boundary cases first, then seeded random ones - a random VALID type is turned into a declarator with random redundant
 parentheses, qualifiers and parameter names; a smaller share are random walks of the grammar (not necessarily valid C)
-and raw token lists (static/restrict/const inside [ ], identifier lists, ...).  Contexts:
+and raw token lists (static / qualifiers inside [ ], identifier lists, ...).  Contexts:
     var       extern <base> <declarator>;                      (declarator(), named)
     param     void f(<base> <declarator>) { ... }              (func_params(): the ADJUSTED type)
     typename  extern typeof(<base> <abstract declarator>) x;   (typename()/abstract_declarator())  + sizeof(type-name)
 ONE coqc call (Cases_decl.v in a fresh temp dir, -Q <verif_dir>/coq/theories Chibicc; the .vo files must exist)
 evaluates for every case the Coq model (parse_declarator / parse_typename on the token list), the Coq spec (type_of /
-param_type, sizeof, alignof) and the predicates c11_ok / chibicc_ok / fits.  From the MODEL's type the C program is
+param_type, sizeof, alignof) and the predicates c11_ok / elems_ok / oversize.  From the MODEL's type the C program is
 derived: walking the type from the declared identifier inwards (pointer: *E, array: E[0], function: E(args)) it prints
-sizeof(E) and _Alignof(typeof(E)) wherever these are defined, and, when the type contains no array (chibicc's
-is_compatible never matches array types, see DELIVERY_decl.md), `_Generic(x, <the type written as a type name>: 1,
-default: 0)`.  The program is compiled and run with the REAL chibicc (and with gcc as a cross-check of the spec).
-  impl_vs_model : chibicc's numbers / its rejection differ from the model's            -> the model no longer describes parse.c
-  impl_vs_spec  : on a case inside the theorems' hypotheses (c11_ok, chibicc_ok, fits; Properties_C08_decl.v) the type the
-                  model builds is not the C11 type, or chibicc's numbers are not the psABI numbers -> the property fails here
+sizeof(E) and _Alignof(typeof(E)) wherever these are defined, and `_Generic(x, <the type written as a type name>: 1,
+default: 0)` (array types included since fix 02474a3).  The program is compiled and run with the REAL chibicc (and with
+gcc as a cross-check of the spec).
+  impl_vs_model : chibicc's numbers / its rejection / its "array too large" differ from the model's
+                                                                           -> the model no longer describes parse.c
+  impl_vs_spec  : on a case inside the theorems' hypotheses (c11_ok, elems_ok; Properties_C08_decl.v):
+                  - the spec says some written array needs more than INT32_MAX bytes (`oversize`) and chibicc does
+                    anything but reject with "array too large" (an allowed implementation limit, C11 5.2.4.1), or
+                  - it does not, and the type the model builds is not the C11 type or chibicc's numbers are not the
+                    psABI numbers                                          -> the property fails here
   deviations_outside_hypotheses : informational - cases outside the hypotheses where chibicc (= model) differs from the spec
   spec_vs_gcc   : informational cross-check of the spec - must be empty too
 """
@@ -172,8 +177,8 @@ class Gen:
         if self.rng.random() < 0.5: self.pid += 1; name = self.pid
         core = ('dir', ('id', name))
         if name is not None and self.rng.random() < 0.1: core = ('dir', ('paren', core))
-        if name is None and p[0] == 'fun':
-            # `T (params)` without identifier is outside chibicc_ok: write it as a pointer to function instead
+        if name is None and p[0] == 'fun' and self.rng.random() < 0.5:
+            # `T (params)` without identifier (parsed correctly since fix 8507b9f) or the adjusted form
             p = ('ptr', [], p)
         return self.decl_for(p, core)
     def named(self, t, k=0):
@@ -250,13 +255,24 @@ def boundary_cases():
     out.append(('typename', 'S', P(ARR(PAR(P(ARR(A, 2))), 7))))               # struct S *(*[2])[7]
     out.append(('typename', 'long', ARR(PAR(ARR(A, 3)), 5)))                  # long ([3])[5]
     out.append(('typename', 'int', FUN(PAR(P(ARR(A, 2))), U)))                # int (*[2])()
-    # outside chibicc_ok / fits: compared with the model only
-    out.append(('param', 'int', FUN(A, U)))                                   # void f(int ())  -> taken for int
-    out.append(('param', 'int', FUN(A, L([('int', A)]))))                     # void f(int (int)) -> rejected
-    out.append(('param', 'int', FUN(A, V)))                                   # void f(int (void)) -> rejected
-    out.append(('typename', 'char', ARR(A, 4294967299)))                      # char[2^32+3] is char[3]
-    out.append(('typename', 'int', ARR(ARR(A, 70000), 70000)))                # size leaves the C int
-    out.append(('var', 'char', ARR(I(), 2147483648)))
+    # the former findings (fixed by 8507b9f / fbdf355): inside the hypotheses now
+    out.append(('param', 'int', FUN(A, U)))                                   # void f(int ())     -> int (*)()
+    out.append(('param', 'int', FUN(A, L([('int', A)]))))                     # void f(int (int))  -> int (*)(int)
+    out.append(('param', 'int', FUN(A, V)))                                   # void f(int (void)) -> int (*)(void)
+    out.append(('param', 'char', P(FUN(A, L([('S', A), ('long', P(A))], True)))))   # char *(struct S, long *, ...)
+    out.append(('typename', 'int', FUN(A, L([('int', A)]))))                  # typeof(int (int))
+    out.append(('typename', 'int', FUN(PAR(FUN(A, U)), V)))                   # int (())(void): invalid, accepted
+    out.append(('typename', 'char', ARR(A, 4294967299)))                      # array too large
+    out.append(('typename', 'int', ARR(ARR(A, 70000), 70000)))                # array too large
+    out.append(('var', 'char', ARR(I(), 2147483648)))                         # array too large
+    out.append(('typename', 'char', ARR(A, 2147483647)))                      # the largest accepted array
+    out.append(('typename', 'int', ARR(A, 536870911)))
+    out.append(('typename', 'int', ARR(A, 536870912)))                        # one element too many
+    out.append(('typename', 'S', ARR(ARR(A, 8192), 16384)))                   # 16 * 8192 * 16384 = 2^31
+    out.append(('typename', 'S', ARR(ARR(A, 8191), 16384)))                   # just below
+    out.append(('var', 'long', ARR(PAR(P(I())), 268435456)))                  # long (*x)[2^28]: pointer to too large
+    out.append(('param', 'int', ARR(I(), 3000000000)))                        # tested before the adjustment
+    out.append(('var', 'int', FUN(I(), L([('char', ARR(ARR(I(1), None), 2147483648))]))))
     # not C11 but accepted (c11_ok may still hold: the constraint is semantic)
     out.append(('var', 'int', FUN(ARR(I(), 3), V)))                           # array of functions
     out.append(('var', 'int', ARR(PAR(FUN(I(), V)), 3)))                      # function returning array
@@ -265,7 +281,11 @@ def boundary_cases():
     # raw token lists (model only)
     out.append(('raw', 'int', ['#0', '[', 'static', 'restrict', 3, ']']))
     out.append(('rawparam', 'int', ['#0', '[', 'restrict', 'static', 3, ']', '[', 'static', 5, ']']))
-    out.append(('rawparam', 'int', ['#0', '[', 'const', 3, ']']))
+    out.append(('rawparam', 'int', ['#0', '[', 'const', 3, ']']))                        # accepted since 053b61b
+    out.append(('rawparam', 'int', ['#0', '[', 'static', 'const', 'volatile', 'restrict', 2, ']']))
+    out.append(('rawparam', 'int', ['#0', '[', 'const', ']']))
+    out.append(('raw', 'int', ['#0', '[', 'volatile', 3, ']', '[', 'const', 5, ']']))
+    out.append(('rawparam', 'int', ['(', 'const', ')']))                                 # outside the model: declspec eats const
     out.append(('raw', 'int', ['#0', '(', '#1', ',', '#2', ')']))                        # identifier list -> int p1, int p2
     out.append(('raw', 'int', ['#0', '(', 'int', ',', '...', ')']))
     out.append(('raw', 'int', ['#0', '(', '...', ')']))
@@ -286,7 +306,7 @@ def gen_cases(seed, n):
         elif r < 0.64:
             t = g.ty(depth, True, True, True); b, d = g.named(t); cases.append(('param', b, d))
         elif r < 0.86:
-            t = g.ty(depth, False, True, True); b, d = g.abstract(t); cases.append(('typename', b, d))
+            t = g.ty(depth, rng.random() < 0.2, True, True); b, d = g.abstract(t); cases.append(('typename', b, d))
         else:
             named = rng.random() < 0.6
             cases.append(('var' if named else 'typename', g.leaf(), g.wild(depth, named)))
@@ -328,27 +348,29 @@ Definition nm (o : option ident) : Z := match o with Some k => Z.of_nat k | None
 Definition out_m (r : res (option ident * mty * list tok)) : list Z :=
   match r with
   | Ok (n, m, rest) => 1 :: nm n :: Z.of_nat (length rest) :: Z.of_nat (length (ser (shape m))) :: ser (shape m) ++ chain_m m
-  | Err => [0] | OutOfFuel => [2]
+  | Err => [0] | OutOfFuel => [2] | TooLarge => [3]
   end.
 Definition first_param (r : res (option ident * mty * list tok)) : res (option ident * mty * list tok) :=
   match r with
   | Ok (_, MFunc _ ((n, m) :: _) _, rest) => Ok (n, m, rest)
   | Ok _ => Err
-  | Err => Err | OutOfFuel => OutOfFuel
+  | Err => Err | OutOfFuel => OutOfFuel | TooLarge => TooLarge
   end.
 Definition out_tn (r : res (mty * list tok)) : list Z :=
-  match r with Ok (m, rest) => out_m (Ok (None, m, rest)) | Err => [0] | OutOfFuel => [2] end.
-Definition out_s (t : ty) (ok : bool) (cok : bool) : list Z :=
-  b2z ok :: b2z cok :: b2z (fits t) :: Z.of_nat (length (ser t)) :: ser t ++ chain_t t.
+  match r with Ok (m, rest) => out_m (Ok (None, m, rest)) | Err => [0] | OutOfFuel => [2] | TooLarge => [3] end.
+Definition out_s (t : ty) (ok : bool) (eok : bool) (big : bool) : list Z :=
+  b2z ok :: b2z eok :: b2z big :: Z.of_nat (length (ser t)) :: ser t ++ chain_t t.
 Definition fwrap (b : leaf) (d : decl) : decl := DDirect (DFunc (DIdent (Some 99%nat)) (PList (POne (Param b d)) false)).
 Definition case_var (b : leaf) (d : decl) :=
-  (out_m (parse_declarator (print_decl d ++ [TOther]) (MBase b)), out_s (type_of (TLeaf b) d) (c11_ok d) (chibicc_ok d)).
+  (out_m (parse_declarator (print_decl d ++ [TOther]) (MBase b)),
+   out_s (type_of (TLeaf b) d) (c11_ok d) (leaf_in_range b && elems_ok d (TLeaf b)) (oversize d (TLeaf b))).
 Definition case_param (b : leaf) (d : decl) :=
   (out_m (first_param (parse_declarator (print_decl (fwrap b d) ++ [TOther]) (MBase LVoid))),
-   out_s (param_type (Param b d)) (c11_ok (fwrap b d)) (chibicc_ok (fwrap b d))).
+   out_s (param_type (Param b d)) (c11_ok (fwrap b d)) (elems_ok (fwrap b d) (TLeaf LVoid)) (oversize (fwrap b d) (TLeaf LVoid))).
 Definition case_tn (b : leaf) (d : decl) :=
   (out_tn (parse_typename (TBase b :: print_decl d ++ [TRParen])),
-   out_s (type_of (TLeaf b) d) (c11_ok d && match name_of d with None => true | _ => false end) (chibicc_ok d)).
+   out_s (type_of (TLeaf b) d) (c11_ok d && match name_of d with None => true | _ => false end)
+         (leaf_in_range b && elems_ok d (TLeaf b)) (oversize d (TLeaf b))).
 Definition case_raw (b : leaf) (ts : list tok) :=
   (out_m (parse_declarator (ts ++ [TOther]) (MBase b)), @nil Z).
 Definition case_rawparam (b : leaf) (ts : list tok) :=
@@ -400,13 +422,13 @@ def unq(t):
     return ('fun', t[1], unq(t[2]), [unq(p) for p in t[3]])
 
 def dec_model(a):
-    if a[0] != 1: return {'status': 'err' if a[0] == 0 else 'fuel'}
+    if a[0] != 1: return {'status': {0: 'err', 2: 'fuel', 3: 'toolarge'}[a[0]]}
     ln = a[3]; t, j = dec_ty(a, 4); assert j == 4 + ln
     return {'status': 'ok', 'name': a[1], 'rest': a[2], 'type': t, 'chain': a[4 + ln:]}
 def dec_spec(a):
     if not a: return None
     ln = a[3]; t, j = dec_ty(a, 4); assert j == 4 + ln
-    return {'c11_ok': a[0] == 1, 'chibicc_ok': a[1] == 1, 'fits': a[2] == 1, 'type': t, 'chain': a[4 + ln:]}
+    return {'c11_ok': a[0] == 1, 'elems_ok': a[1] == 1, 'oversize': a[2] == 1, 'type': t, 'chain': a[4 + ln:]}
 
 # ---------------------------------------------------------------- C side
 def leaf_c(l):
@@ -485,8 +507,7 @@ def c_program(ctx, decl_text, typename_text, mtype, generic_ok, named=True, gtyp
     vals = [p[2] if p[2] else '%dL' % NA for p in pr]
     gen = None
     if generic_ok:
-        u = gtype
-        if u[0] == 'fun': u = ('ptr', [], u)
+        u = decayed(gtype)
         gen = '_Generic(x, %s: 1, default: 0)' % tyname(u)
         o = other_form(u)
         if o is not None: gen += ', _Generic(x, %s: 1, default: 0)' % tyname(o)
@@ -505,6 +526,12 @@ def c_program(ctx, decl_text, typename_text, mtype, generic_ok, named=True, gtyp
         lines += ['extern typeof(%s) x;' % typename_text, 'int main(void) { %s%s return 0; }' % (body, extra)]
     return '\n'.join(lines) + '\n'
 
+def decayed(u):
+    """the type of the controlling expression `x` of _Generic: functions and arrays decay to pointers"""
+    if u[0] == 'fun': return ('ptr', [], u)
+    if u[0] == 'arr': return ('ptr', [], u[2])
+    return u
+
 def other_form(u):
     """for a pointer to a function without parameters: the same type with `()` and `(void)` exchanged.  chibicc keeps
     the two apart (is_variadic), so its _Generic must NOT select it - this is what tells `()` from `(void)`; in C11
@@ -517,7 +544,7 @@ def predicted(ctx, t, chain, generic_ok, named, side='model'):
     """the numbers the program above prints if the declared type is t with the per-level (size, align) chain"""
     if ctx in ('param', 'rawparam') and not named: return [1]
     out = expected_numbers(ctx, t, chain) + ([1] if generic_ok else [])
-    if generic_ok and other_form(t if t[0] != 'fun' else ('ptr', [], t)) is not None:
+    if generic_ok and other_form(decayed(t)) is not None:
         out = out + [0 if side == 'model' else None]
     if ctx == 'typename' and printable(t): out = out + [chain[0]]
     return out
@@ -527,7 +554,9 @@ def compile_run(cmd, tmp, name, text):
     open(src, 'w').write(text)
     try:
         p = subprocess.run(cmd + ['-o', exe, src], capture_output=True, text=True, timeout=60)
-        if p.returncode != 0: return ('reject', (p.stderr or p.stdout).strip().splitlines()[-1:] or [''])
+        if p.returncode != 0:
+            msg = (p.stderr or p.stdout).strip().splitlines()[-1:] or ['']
+            return ('toolarge' if 'array too large' in msg[0] else 'reject', msg)
         q = subprocess.run([exe], capture_output=True, text=True, timeout=20)
         if q.returncode != 0: return ('crash', q.returncode)
         return ('ok', [int(x) for x in q.stdout.split()])
@@ -562,7 +591,7 @@ def run(src_dir, seed=1, n=400, verif_dir=None):
             steer = M['type'] if M['status'] == 'ok' else (S['type'] if S else ('leaf', 'int'))
             steer_u = unq(steer)
             named = not (M['status'] == 'ok' and M['name'] == -1) if ctx in ('param', 'rawparam') else True
-            generic_ok = not has_arr(steer_u) and not has_void_param_or_odd(steer_u) and steer_u != ('leaf', 'void')
+            generic_ok = not has_void_param_or_odd(steer_u) and steer_u != ('leaf', 'void')
             if not named and not generic_ok: named = True      # nothing observable: let it fail loudly
             # the association of the _Generic probe is written WITH the spec's qualifiers when the types agree
             # (gcc compares them; chibicc has none); top-level qualifiers are dropped by lvalue conversion
@@ -594,12 +623,15 @@ def run(src_dir, seed=1, n=400, verif_dir=None):
                 if dl >= 2: distinct.add((ctx, b, json.dumps(d)))
             else:
                 if len(d) >= 4: distinct.add((ctx, b, json.dumps(d)))
-            inside = S is not None and S['c11_ok'] and S['chibicc_ok']
-            bump('class', 'raw-tokens' if S is None else ('inside-hypotheses' if inside else 'outside-hypotheses'))
+            inside = S is not None and S['c11_ok'] and S['elems_ok']
+            bump('class', 'raw-tokens' if S is None else
+                 (('inside-hypotheses-oversize' if S['oversize'] else 'inside-hypotheses') if inside else 'outside-hypotheses'))
             bump('chibicc', r[0])
-            # --- the model's prediction of the program's output: tokens left over in front of ";" / ")" and a missing
-            #     name in a declaration make the caller report an error
-            if M['status'] == 'ok' and M['rest'] == 1 and not (ctx in ('var', 'raw') and M['name'] == -1):
+            # --- the model's prediction of the program's output: "array too large" is error_tok; tokens left over in
+            #     front of ";" / ")" and a missing name in a declaration make the caller report an error
+            if M['status'] == 'toolarge':
+                pred_m = ('toolarge', None)
+            elif M['status'] == 'ok' and M['rest'] == 1 and not (ctx in ('var', 'raw') and M['name'] == -1):
                 pred_m = ('ok', predicted(ctx, steer_u, M['chain'], generic_ok, named))
             else:
                 pred_m = ('reject', None)
@@ -613,17 +645,16 @@ def run(src_dir, seed=1, n=400, verif_dir=None):
                 same_type = M['status'] == 'ok' and M['type'] == unq(S['type'])
                 exp_full = predicted(ctx, steer_u, S['chain'], generic_ok, named, 'spec') if same_type else None
                 good_full = same_type and r[0] == 'ok' and agree(r[1], exp_full)
-                info = {'case': case_id, 'c11_ok': S['c11_ok'], 'chibicc_ok': S['chibicc_ok'], 'fits': S['fits'], 'impl': r,
-                        'spec': {'type': tyname(unq(S['type']), 'x'), 'numbers': exp_full},
+                info = {'case': case_id, 'c11_ok': S['c11_ok'], 'elems_ok': S['elems_ok'], 'oversize': S['oversize'], 'impl': r,
+                        'spec': {'type': tyname(unq(S['type']), 'x'), 'numbers': exp_full,
+                                 'expected': (('rejected with "array too large"' if S['oversize'] else 'accepted')
+                                              if inside else 'nothing (outside the hypotheses)')},
                         'model_type': tyname(M['type'], 'x') if M['status'] == 'ok' else M['status']}
-                if inside and S['fits']:
-                    if not good_full: impl_vs_spec.append(info)
+                if inside and S['oversize']:
+                    # an implementation limit: the ONLY allowed answer is the located diagnostic
+                    if r[0] != 'toolarge': impl_vs_spec.append(info)
                 elif inside:
-                    # sizes are outside the theorem (an object of 2 GiB or more); the type and the alignments are not
-                    ok_al = same_type and r[0] == 'ok' and named and len(r[1]) == len(exp_full) and \
-                        all(r[1][k] == exp_full[k] for k, p in enumerate(probes(steer_u)) if p[1] == 'a' and exp_full[k] is not None)
-                    if not ok_al: impl_vs_spec.append(info)
-                    elif not good_full: deviations.append(info)
+                    if not good_full: impl_vs_spec.append(info)
                 elif not good_full:
                     deviations.append(info)
                 # --- gcc against the spec (only where the program was derived from the spec's own type)
